@@ -90,7 +90,7 @@ func c06(c *Ctx) {
 		add("$.a.Index(0)", h.Obj("a", arr), "index")
 		add("$.a.Index(2)", h.Obj("a", arr), "index")
 		if n.d.Tag != "p" {
-			add("$.a.First()", h.Obj("a", h.Slice("other", n.d, n.d)), "first-typed-slice")
+			add("$.a.First()", h.Obj("a", h.TypedSlice(n.d, n.d)), "first-typed-slice")
 		}
 		// stepping a key across an array of objects: every collected value is the decimal
 		ec := c.AddEval("$.os.v", h.Obj("os", h.SliceAny(h.Obj("v", n.d), h.Obj("w", h.Bool(true)), h.Obj("v", n.d))), "projected", false, nz)
